@@ -51,6 +51,7 @@ type bufTracker struct {
 	layout int
 	pad    int
 	arenas [][]byte
+	arenaBytes int
 	lastCall [][]byte // the arenas handed out during the call just checked
 	pend   []pendBuf
 	scan   []byte
@@ -100,8 +101,10 @@ func (b *bufTracker) mk(k []byte) []byte {
 	}
 	b.pend = append(b.pend, pendBuf{arena: arena, snap: append([]byte{}, arena...)})
 	if b.layout != layScan {
-		if len(b.arenas) < 1<<14 {
+		// remember the buffer for later scribbling, within a byte budget
+		if len(b.arenas) < 1<<14 && b.arenaBytes+len(arena) <= 16<<20 {
 			b.arenas = append(b.arenas, arena)
+			b.arenaBytes += len(arena)
 		}
 	}
 	return key
@@ -585,6 +588,7 @@ type tupCodec struct {
 	spare  bool     // return slices with sentinel-filled spare capacity
 	issued [][]byte // every slice handed to the tree (full capacity), when spare
 	snaps  [][]byte
+	issuedBytes int
 }
 
 func encField(ft string, u uint64) []byte {
@@ -755,9 +759,10 @@ func (c *tupCodec) Transform(k tup) ([]byte, []byte) {
 		for i := len(out); i < len(full); i++ {
 			full[i] = 0x5A ^ byte(i)
 		}
-		if len(c.issued) < 1<<14 {
+		if len(c.issued) < 1<<14 && c.issuedBytes+len(full) <= 8<<20 {
 			c.issued = append(c.issued, full)
 			c.snaps = append(c.snaps, clone(full))
+			c.issuedBytes += len(full)
 		}
 		out = full[:len(out)]
 	} else {
